@@ -917,6 +917,23 @@ func (e *c01env) hashEnvelope(r *mon.Rand, in map[string]any, base string, h cos
 		e.fail("verify-hash-envelope", "hash-envelope", err, in)
 		return
 	}
+	// the message VerifyHashEnvelope hands back is the verified message: it verifies again as a plain
+	// COSE_Sign1 and serialises to the very bytes that were verified
+	if guard(rec, "Sign1Message.Verify(returned by VerifyHashEnvelope)", in, func() { err = m.Verify(nil, verifier) }) {
+		return
+	}
+	if err != nil {
+		e.fail("verify-message-returned-by-VerifyHashEnvelope", "hash-envelope", err, in)
+		return
+	}
+	var again []byte
+	if guard(rec, "Sign1Message.MarshalCBOR(returned by VerifyHashEnvelope)", in, func() { again, err = m.MarshalCBOR() }) {
+		return
+	}
+	if err != nil || !eqBytes(again, env) {
+		e.fail("marshal-message-returned-by-VerifyHashEnvelope-differs-from-the-verified-bytes", "hash-envelope", err, in)
+		return
+	}
 	rec.Event("chain-complete")
 	rec.Class(fmt.Sprintf("hash-envelope/alg=%s/hash=%v/ct=%T/loc=%v/rawbase=%v", k.Name, ha, p.PreimageContentType, p.Location != "", rawBase))
 	rec.Sample("hash-envelope", map[string]any{"wire": hexs(env)})
